@@ -432,3 +432,92 @@ func sweepIsolation(g *G, idx funcIndex, cs *contractSet, prop string) ([]*Oblig
 	}
 	return obls, []string{"A-SWEEP-ISOLATION: shared objects are written only through SSA stores, map updates and the PredefinedTopics methods (no reflection, unsafe, or writes through slices that alias configuration data: append into spare capacity of a shared slice is not seen, A-APPEND)"}, nil
 }
+
+// sweepDatagramSenders (C23): the well-formedness precondition of snSend /
+// Client.send is an obligation only at call sites inside functions checked for
+// the property; as for C24 the selection itself is made an obligation
+// (sweep.sender_in_scope.N), for both packages.
+func sweepDatagramSenders(g *G, idx funcIndex, cs *contractSet, prop string) ([]*Obligation, []string, error) {
+	var obls []*Obligation
+	for _, tgt := range []struct{ pkg, key string }{{"gateway.", "gateway.(*handler1).snSend"}, {"client.", "client.(*Client).send"}} {
+		var keys []string
+		for k := range idx {
+			if strings.HasPrefix(k, tgt.pkg) {
+				keys = append(keys, k)
+			}
+		}
+		sort.Strings(keys)
+		callers := map[string][]*ssa.Function{}
+		for _, k := range keys {
+			for _, b := range idx[k].Blocks {
+				for _, in := range b.Instrs {
+					if ci, ok := in.(ssa.CallInstruction); ok {
+						if f := ci.Common().StaticCallee(); f != nil {
+							callers[funcKey(f)] = append(callers[funcKey(f)], idx[k])
+						}
+					}
+				}
+			}
+		}
+		var inScope func(fn *ssa.Function, depth int) bool
+		inScope = func(fn *ssa.Function, depth int) bool {
+			if depth > 8 {
+				return false
+			}
+			k := funcKey(fn)
+			if c := g.contracts[k]; c != nil && !c.Trusted && !c.Inline && !g.inlineSet[k] {
+				return hasTag(c.AllTags(), prop)
+			}
+			if g.inlineSet[k] || (g.contracts[k] != nil && g.contracts[k].Inline) || (g.contracts[k] == nil && fn.Parent() == nil && loopFreeSmall(fn)) {
+				cl := callers[k]
+				if len(cl) == 0 {
+					return false
+				}
+				for _, c := range cl {
+					if strings.HasSuffix(g.fset.Position(c.Pos()).Filename, "_test.go") {
+						continue
+					}
+					if !inScope(c, depth+1) {
+						return false
+					}
+				}
+				return true
+			}
+			return false
+		}
+		saw := false
+		for _, k := range keys {
+			fn := idx[k]
+			if fn.Blocks == nil || strings.HasSuffix(g.fset.Position(fn.Pos()).Filename, "_test.go") {
+				continue
+			}
+			n := 0
+			for _, b := range fn.Blocks {
+				for _, in := range b.Instrs {
+					ci, ok := in.(ssa.CallInstruction)
+					if !ok {
+						continue
+					}
+					if f := ci.Common().StaticCallee(); f != nil && funcKey(f) == tgt.key {
+						saw = true
+						ok := inScope(fn, 0)
+						pp := g.fset.Position(in.Pos())
+						o := &Obligation{Name: fmt.Sprintf("%s#sweep.sender_in_scope.%d", funcKey(fn), n), Kind: "sweep", Fn: funcKey(fn), Tags: []string{prop},
+							Pos:  fmt.Sprintf("%s:%d", strings.TrimPrefix(pp.Filename, repoRoot+"/"), pp.Line),
+							Goal: TTrue, Solver: "syntactic", Result: "unsat",
+							Note: tgt.key + " called from a function that is not checked for " + prop + ": the well-formedness of the packet handed over is not an obligation anywhere"}
+						if !ok {
+							o.Goal, o.Result, o.Raw = TFalse, "sat", o.Note
+						}
+						obls = append(obls, o)
+						n++
+					}
+				}
+			}
+		}
+		if !saw {
+			return nil, nil, fmt.Errorf("sweep: no call of %s found (renamed?)", tgt.key)
+		}
+	}
+	return obls, []string{"A-SWEEP: datagrams reach a connection only through snSend (gateway) and Client.send (client library); checked for the gateway's broker side by C14/C24, for connection writes of package client by inspection of its single Write call in send"}, nil
+}
